@@ -21,6 +21,9 @@ const (
 	defaultMaxLoginLength = 32
 
 	defaultMinPasswordLength = 3
+
+	// The longest password bcrypt takes into account, in bytes.
+	maxPasswordBytes = 72
 )
 
 // Token suitable as a login: starts and ends with a Unicode letter (class L) or number (class N),
@@ -230,6 +233,12 @@ func (a *authenticator) Authenticate(secret []byte, remoteAddr string) (*auth.Re
 	if !expires.IsZero() && expires.Before(time.Now()) {
 		// The record has expired
 		return nil, nil, types.ErrExpired
+	}
+
+	if len(password) > maxPasswordBytes {
+		// bcrypt ignores everything past 72 bytes (and refuses to hash longer passwords):
+		// a longer password cannot be the stored one.
+		return nil, nil, types.ErrFailed
 	}
 
 	err = bcrypt.CompareHashAndPassword(passhash, []byte(password))
